@@ -148,6 +148,17 @@ CHECKS["C09"] = {
     "explanation": "Structural rules over all read-side functions (all paths; loops entered once).",
 }
 
+CHECKS["C07"] = {
+    "module": "rules_c07",
+    "level": "proof",
+    "quick_fs": ["default"],
+    "thorough_fs": ["default", "checks", "no_copy_impls", "both"],
+    "technique": "affine ghost-position accounting by abstract interpretation of MIR (loop summaries, contracts for the word backends), per word size; structural rules for accessors and backends",
+    "claim": "Positions, for every history because each method is checked on all paths from an arbitrary invariant-satisfying state: bit_pos() returns pos = W*word_pos - bits_in_buffer and does not move; set_bit_pos(p) (never executed by the suite) establishes pos' = p via set_word_pos(p / W), the cleared buffer and the partial reload, with all divisions/shifts in range and the buffer-counter invariant restored; every read, skip, peek, unary read and skip-after-peek moves pos by exactly its declared amount for W in {u8..u64}; the unbuffered reader's accessors are exact; memory backends report/store the cursor exactly and reject only positions > len; the byte adapter divides and multiplies by the same W::BYTES. Undecided: the contents seen after a seek (needs the cleanliness clause / bit values).",
+    "note": "Trusted: rustc MIR, exporter, contracts, ghost model, LP entailment; lemma L2 (no overflow for streams < 2^64 bits).",
+    "explanation": "E4 accounting + E3 + structural",
+}
+
 NOT_APPLICABLE = {
     "C17": "a bijection over all values of six integer widths is a statement about (x>>1)^-(x&1) on 2^n values: the generic body is a chain of operator-trait calls with no table, pairing, ordering or ownership structure to check; proving the identity needs bit-vector reasoning (a solver) or running it, both outside static analysis (DESIGN.md section 6)",
 }
